@@ -67,6 +67,18 @@ def c09_cases(rng, tier):
                     # the same program with the gate's dagger partner, directly afterwards
                     stmt2 = ("apply", partner.upper() if upper else partner, args, [])
                     cs.append({"chunks": [decl + prep + [stmt2]], "seed": 1, "kind": partner, "stmt": stmt2, "prep": decl + prep})
+    # "all parameter values": angles of 1e9 .. 1e16 (far beyond the range in which the model's own trigonometry is comparable
+    # with libm: implementation only, against the reference that reduces the argument exactly)
+    for name, (npar, nq) in names:
+        if not npar:
+            continue
+        for big in ("1000000000", "1000000000000", "12345678901234567"):
+            decl = [("qreg", "q", max(nq, 2)), ("creg", "c", 1)]
+            prep = [("apply", "h", [("r", "q")], []), ("apply", "t", [("q", "q", 0)], []), ("apply", "rx", [("q", "q", 1)], [("num", "0.7")])]
+            pars = [("num", big) if rng.random() < 0.7 else ("neg", ("num", big)) for _ in range(npar)]
+            stmt = ("apply", name, [("q", "q", i) for i in rng.sample(range(max(nq, 2)), nq)], pars)
+            cs.append({"chunks": [decl + prep + [stmt]], "seed": 1, "kind": name + "/huge", "stmt": stmt, "prep": decl + prep,
+                       "impl_only": True})
     # whole-register form of every one-qubit gate without parameter (and of qft) on registers of 2..4 qubits
     for name in sorted(pyref.BROADCAST1) + ["qft"]:
         for size in ((2, 3, 4) if tier == "quick" else (2, 3, 4, 5)):
@@ -143,6 +155,15 @@ def c11_cases(rng, tier):
         [("qreg", "q", 2), ("creg", "c", 34), X(0), M(0, "c", 33), M(0, "c", 0), ("if", "c", 1, X(1)), M(1, "c", 5)],
         [("qreg", "q", 2), ("creg", "lo", 2), ("creg", "c", 40), X(0), M(0, "c", 39), M(0, "c", 1), ("if", "c", 2, X(1)), ("if", "lo", 0, X(0))],
         [("qreg", "q", 3), ("creg", "c", 63), X(2), M(2, "c", 62), M(2, "c", 31), M(2, "c", 32), ("if", "c", 0, X(0)), M(0, "c", 1)],
+    ]
+    # comparison values that do not fit the register, for registers placed high in the word (a value moved up to the
+    # register's position would lose its top bits): v = held value + k * 2^(64 - start) and v = k * 2^width
+    wide += [
+        [("qreg", "q", 2), ("creg", "pad", 60), ("creg", "c", 2), X(0), M(0, "c", 0), ("if", "c", 17, X(1)), M(1, "c", 1)],
+        [("qreg", "q", 2), ("creg", "pad", 60), ("creg", "c", 3), ("if", "c", 16, X(1)), M(1, "c", 2), ("if", "c", 8, X(0)), M(0, "c", 0)],
+        [("qreg", "q", 2), ("creg", "lo", 40), ("creg", "c", 4), X(0), M(0, "c", 0), M(0, "c", 1), ("if", "c", 16777219, X(1)), M(1, "c", 3)],
+        [("qreg", "q", 2), ("creg", "lo", 34), ("creg", "c", 2), X(0), M(0, "c", 1), ("if", "c", 1073741826, X(1)), M(1, "c", 0), ("if", "c", 6, X(0))],
+        [("qreg", "q", 2), ("creg", "lo", 50), ("creg", "c", 5), ("if", "c", 16384, X(1)), ("if", "c", 32, X(0)), M(1, "lo", 49), M(0, "c", 4)],
     ]
     for w in wide:
         for xor in (False, True):
@@ -362,9 +383,12 @@ def c13_mutants(rng, nodes, lay):
     out.append(("non-gate statement under if", ins(pos(), ("if", cn, 0, ("measure", ("q", qn, 0), ("q", cn, 0)))),
                 ("DisallowedNodeInIf", 5)))
     out.append(("non-gate statement under if (reset)", ins(pos(), ("if", cn, 0, ("reset", ("q", qn, 0)))), ("DisallowedNodeInIf", 4)))
-    long_id = "a" * rng.choice([32, 33, 40])
-    out.append(("over-long identifier", ins(len(lay_decl_end(nodes)), ("qreg", long_id, 1)), ("IdentIsTooLarge", long_id, len(long_id))))
-    out.append(("over-long gate name", ins(pos(), ("gate", long_id, ["a"], [], [])), ("IdentIsTooLarge", long_id, len(long_id))))
+    # the limit counts bytes: names in letters that take two or three bytes each are over-long well before 32 characters
+    long_id = rng.choice(["a" * rng.choice([32, 33, 40]), "a" * rng.choice([32, 33, 40]), "\u0436" * rng.randint(16, 31),
+                          "q" + "\u00e9" * rng.randint(16, 30), "\u03b1\u03b2" * rng.randint(8, 15), "w" + "\u4e2d" * rng.randint(11, 20)])
+    blen = len(long_id.encode("utf-8"))
+    out.append(("over-long identifier", ins(len(lay_decl_end(nodes)), (rng.choice(["qreg", "qreg", "creg"]), long_id, 1)), ("IdentIsTooLarge", long_id, blen)))
+    out.append(("over-long gate name", ins(pos(), ("gate", long_id, ["a"], [], [])), ("IdentIsTooLarge", long_id, blen)))
     big = 64 - lay.nq()
     out.append(("too many qubits in total", ins(len(lay_decl_end(nodes)), ("qreg", "zbig", big)), ("RegisterIsTooLarge", "zbig", 64)))
     out.append(("too many qubits in one register", ins(len(lay_decl_end(nodes)), ("qreg", "zbig", 64)), ("RegisterIsTooLarge", "zbig", 64)))
@@ -657,6 +681,21 @@ def c18_cases(rng, tier):
     sessions.append({"chunks": [base, [fooX, ("apply", "foo", [Q0], []), zzbad], [fooX, ("apply", "foo", [Q0], []), zzbad],
                                 [fooH, ("apply", "foo", [Q0], []), ("apply", "foo", [Q1], []), meas]],
                      "bad": [1, 2], "seed": 9, "rule": "stale definition from a rejected chunk", "position": 3})
+    # a rejected gate definition with formal parameters (the body names an unknown register / an indexed qubit / an unknown
+    # variable): afterwards the formals' names mean what they meant before -- pi is the constant again, theta is unknown again
+    for badbody, rule in ((("apply", "rx", [("r", "b")], [("var", "pi")]), "unknown register in the body"),
+                          (("apply", "rx", [("q", "a", 0)], [("var", "theta")]), "indexed qubit in the body"),
+                          (("apply", "rx", [A], [("var", "nosuchvar")]), "unknown variable in the body")):
+        badchunk = [("apply", "h", [Q1], []), ("gate", "bad", ["a"], ["pi", "theta"], [("apply", "h", [A], []), badbody])]
+        contn = [("apply", "rx", [Q0], [("var", "pi")]), ("apply", "rz", [Q0], [("div", ("var", "pi"), ("num", "2"))]),
+                 ("apply", "u1", [Q1], [("var", "pi")]), ("apply", "h", [Q1], []), meas]
+        unk = [("apply", "rx", [Q0], [("var", "theta")])]
+        sessions.append({"chunks": [base + [("apply", "h", [Q1], [])], badchunk, contn], "bad": [1], "seed": 12,
+                         "rule": "rejected gate definition with parameters: " + rule, "position": 0})
+        sessions.append({"chunks": [base + [rotA, ("apply", "rot", [Q1], [("var", "pi")])], badchunk, [("apply", "rot", [Q0], [("var", "pi")])], contn],
+                         "bad": [1], "seed": 12, "rule": "rejected gate definition with parameters: " + rule, "position": 1})
+        sessions.append({"chunks": [base, unk, badchunk, unk, contn], "bad": [1, 2, 3], "seed": 12,
+                         "rule": "rejected gate definition with parameters: " + rule, "position": 2})
     # a rejected chunk made of declarations only (a header / include-like chunk): the error comes from a later
     # declaration, the earlier ones of the same chunk must not stay
     decl0 = [("qreg", "q", 2), ("creg", "c", 2), ("gate", "old", ["a"], [], [("apply", "x", [A], [])]), ("apply", "h", [Q0], [])]
@@ -807,7 +846,13 @@ def c12_strings(rng, tier):
         base_progs.append(qa.p_program(nodes, rng, header=rng.random() < 0.5))
     out += [(t, None) for t in base_progs]
     # adversarial hand-written inputs (each once a crash or hang)
+    fill = lambda k: " ".join("gate f%d q { h q; }" % i for i in range(k))
     adversarial = [
+        # recursive cycles whose bodies call the next member several times, among dozens of unrelated definitions (an
+        # expansion that does not stop at the first refused call visits calls^gates branches)
+        fill(40) + " gate ping q { pong q; pong q; } gate pong q { ping q; ping q; } qreg q[1]; ping q[0];",
+        fill(28) + " gate a q { x q; b q; b q; b q; } gate b q { c2 q; h q; c2 q; } gate c2 q { a q; a q; } qreg q[1]; h q[0]; a q[0];",
+        "OPENQASM 2.0; include \"qelib1.inc\"; gate ping(t) q { pong(t/2) q; rx(t) q; pong(t) q; } gate pong(t) q { ping(t) q; ping(t+1) q; } qreg q[1]; ping(1) q[0];",
         "qreg q[2]; c q[0],q[1];", "qreg q[2]; C q[0],q[1];", "qreg q[1]; éx q[0];", "qreg q[2]; cé q[0],q[1];",
         "qreg q[1]; cc q[0];", "qreg q[1]; 中 q[0];", "gate a q { b q; } gate b q { a q; } qreg q[1]; a q[0];",
         "gate a q { a q; } qreg q[1]; a q[0];", "gate a q { b q; } gate b q { c2 q; } gate c2 q { a q; } qreg q[1]; a q[0];",
